@@ -610,7 +610,17 @@ func (p *uPacketPacker) PackPTOProbePacket(
 	size := p.longHeaderPacketLength(hdr, pl, v) + protocol.ByteCount(sealer.Overhead())
 	var padding protocol.ByteCount
 	if encLevel == protocol.EncryptionInitial {
-		if p.uSpec == nil { // default behavior
+		// A probe without CRYPTO data (PING only, when there is nothing left to retransmit) has
+		// nothing for the spec's frame builder to lay out: a fixed layout fails on the empty
+		// slice. (After a planned flight, MarshalInitialPacketPayload passes frames through.)
+		hasCrypto := p.flightPlanned
+		for _, f := range pl.frames {
+			if _, ok := f.Frame.(*wire.CryptoFrame); ok {
+				hasCrypto = true
+				break
+			}
+		}
+		if p.uSpec == nil || !hasCrypto { // default behavior
 			padding = p.initialPaddingLen(pl.frames, size, maxPacketSize)
 		} else { // otherwise we resend the spec-based initial packet
 			initPkt, err := p.appendInitialPacket(buffer, hdr, pl, protocol.EncryptionInitial, sealer, v)
